@@ -275,6 +275,44 @@ def pieces (n : Nat) (ts : List Triple) : Option (List Piece) := (events ts).map
 /-- the serialiser's output; `none` = `Err(SinkError(..))` -/
 def serialize (n : Nat) (ts : List Triple) : Option Str := (pieces n ts).map render
 
+/-! ## the other exits of `RdfXmlSerializer::serialize_triples` and the default configuration -/
+
+/-- `#[derive(Default)]` on `RdfXmlConfig { indentation: usize }`; what `RdfXmlConfig::new()`,
+`RdfXmlSerializer::new` and `new_stringifier` use -/
+def defaultIndentation : Nat := 0
+
+/-- length in bytes of the UTF-8 encoding (what an `io::Write` counts) -/
+def utf8Len (s : Str) : Nat := (s.map Char.utf8Size).sum
+
+/-- `Ok(self)` (with what the writer holds), `Err(SinkError(_))`, `Err(SourceError(_))` -/
+inductive Outcome where
+  | ok (doc : Str)
+  | sinkErr
+  | sourceErr
+  deriving DecidableEq, Repr, Inhabited
+
+/-- a writer that accepts `cap` bytes and fails afterwards (`none`: never fails, e.g. `Vec<u8>`) -/
+def overflows (cap : Option Nat) (out : Str) : Bool :=
+  match cap with
+  | none => false
+  | some c => decide (c < utf8Len out)
+
+/-- `serialize_triples` on a source that yields `ts` and then either ends or fails (`srcFails`),
+into a writer with capacity `cap`.  Order of effects as in the Rust code: `RdfXmlFormatter::new`
+writes the prologue, every triple is written when it is pulled (so a formatter refusal or a full
+writer is met BEFORE the source's error, both as `SinkError`: `TF::Error = io::Error`), the
+source's error ends the loop as `SourceError`, and only then `finish()` writes the end tags, whose
+error is `SinkError` again. -/
+def serializeTriples (n : Nat) (ts : List Triple) (srcFails : Bool) (cap : Option Nat) : Outcome :=
+  match formatAll none (ts.filterMap convertTriple) with
+  | none => .sinkErr
+  | some (cur, evs) =>
+    if overflows cap (render (writeAll (indentOf n) (startEvs ++ evs))) then .sinkErr
+    else if srcFails then .sourceErr
+    else
+      let doc := render (writeAll (indentOf n) (startEvs ++ evs ++ finishEvs cur))
+      if overflows cap doc then .sinkErr else .ok doc
+
 /-! ## reference reader -/
 
 /-- inverse of `escape` on the five predefined entities; any other `&` is outside the vocabulary
